@@ -111,7 +111,7 @@ impl Prop for C03 {
         "exploration"
     }
     fn prepare(&mut self, tier: Tier) -> Result<(), String> {
-        self.bound = if tier == Tier::Quick { 2 } else { 3 };
+        self.bound = if tier == Tier::Quick { 3 } else { 4 };
         self.cases = assignments(&dim_sizes(), self.bound);
         Ok(())
     }
@@ -124,7 +124,7 @@ impl Prop for C03 {
         d
     }
     fn rule(&self) -> String {
-        format!("cases = (connector configuration, conforming-server parameters) over 22 dimensions ({} alternatives in total): NLA, restricted admin, blank credentials, auto logon, password|hash, 8 client names, 4 screen sizes, 3 layouts, 3 credential sets, SSL although NLA offered, 6 user ids (1001..65535), 4 share ids, 5 versions, optional SC_CORE fields, 6 block orders, unknown block, SC_NET padding, 5 licence variants, 4 capability lists (incl. the Windows capture, unknown and empty sets), 3 source-descriptor lengths, 0..2 reactivations, fresh or reused share id on reactivation. Enumerated: the default, every single alternative, every pair (every triple in thorough). Each case is a full real Connector::connect over real TLS + activation + 4 input events + shutdown; oracle: success, mandated message order, no message written while the reply it depends on is unread, identifiers echoed. Non-trivial: at least one non-default coordinate.", dim_sizes().iter().map(|s| s - 1).sum::<usize>())
+        format!("cases = (connector configuration, conforming-server parameters) over 22 dimensions ({} alternatives in total): NLA, restricted admin, blank credentials, auto logon, password|hash, 8 client names, 4 screen sizes, 3 layouts, 3 credential sets, SSL although NLA offered, 6 user ids (1001..65535), 4 share ids, 5 versions, optional SC_CORE fields, 6 block orders, unknown block, SC_NET padding, 5 licence variants, 4 capability lists (incl. the Windows capture, unknown and empty sets), 3 source-descriptor lengths, 0..2 reactivations, fresh or reused share id on reactivation. Enumerated: the default, every single alternative, every pair, every triple (every quadruple in thorough). Each case is a full real Connector::connect over real TLS + activation + 4 input events + shutdown; oracle: success, mandated message order, no message written while the reply it depends on is unread, identifiers echoed. Non-trivial: at least one non-default coordinate.", dim_sizes().iter().map(|s| s - 1).sum::<usize>())
     }
     fn assumptions(&self) -> Vec<String> {
         vec![
@@ -191,7 +191,7 @@ impl Prop for C04 {
         "exploration"
     }
     fn prepare(&mut self, tier: Tier) -> Result<(), String> {
-        let mut cs: Vec<C04Case> = assignments(&dim_sizes(), if tier == Tier::Quick { 1 } else { 2 }).into_iter().map(C04Case::Assign).collect();
+        let mut cs: Vec<C04Case> = assignments(&dim_sizes(), if tier == Tier::Quick { 2 } else { 3 }).into_iter().map(C04Case::Assign).collect();
         for s in string_alphabet() {
             for field in 0..4 {
                 for nla in [true, false] {
@@ -219,7 +219,7 @@ impl Prop for C04 {
         }
     }
     fn rule(&self) -> String {
-        "cases = full conversations (as C03) whose every client message is parsed by the strict reference parsers: TPKT/X.224, BER connect-initial, PER conference-create-request (length = 14 + blocks), CS_CORE/CS_SECURITY/CS_NET block lengths, clientName = 32 bytes holding <=15 UTF-16 units + NUL, info packet cb* fields / terminators / extended info, share control totalLength, share data lengths, confirm-active counts and per-type capability sizes, input PDU numEvents, NTLM NEGOTIATE/AUTHENTICATE descriptor triples, strict DER TSRequest/TSCredentials. Configurations: default, every single alternative of the 21 C03 dimensions (every pair in thorough), and every string of the Unicode alphabet (class^len for class in {a, é, 日, 😀} x len in {0,1,7,8,15,16,17,31,32,64}, every mixed string of <=3 code points) as client name, domain, user and password, with NLA on and off. Non-trivial: every case but the default.".into()
+        "cases = full conversations (as C03) whose every client message is parsed by the strict reference parsers: TPKT/X.224, BER connect-initial, PER conference-create-request (length = 14 + blocks), CS_CORE/CS_SECURITY/CS_NET block lengths, clientName = 32 bytes holding <=15 UTF-16 units + NUL, info packet cb* fields / terminators / extended info, share control totalLength, share data lengths, confirm-active counts and per-type capability sizes, input PDU numEvents, NTLM NEGOTIATE/AUTHENTICATE descriptor triples, strict DER TSRequest/TSCredentials. Configurations: default, every single alternative and every pair of the 22 C03 dimensions (every triple in thorough), and every string of the Unicode alphabet (class^len for class in {a, é, 日, 😀} x len in {0,1,7,8,15,16,17,31,32,64}, every mixed string of <=3 code points) as client name, domain, user and password, with NLA on and off. Non-trivial: every case but the default.".into()
     }
     fn assumptions(&self) -> Vec<String> {
         vec![
